@@ -393,6 +393,21 @@ pub fn format_assignment(ctx: &Context, assignment: &Assignment, shape: Shape) -
     )
 }
 
+/// If the `local` token is followed by a single line comment, the names have to start a new line,
+/// as they would otherwise be commented out
+fn names_below_local_comment(
+    ctx: &Context,
+    local_token: &TokenReference,
+    name_list: Punctuated<TokenReference>,
+    shape: Shape,
+) -> Punctuated<TokenReference> {
+    if local_token.has_trailing_comments(trivia_util::CommentSearch::Single) {
+        prepend_newline_indent(ctx, &name_list, shape.increment_additional_indent())
+    } else {
+        name_list
+    }
+}
+
 fn format_local_no_assignment(
     ctx: &Context,
     assignment: &LocalAssignment,
@@ -420,6 +435,7 @@ fn format_local_no_assignment(
         .map(|x| x.map(|type_specifier| format_type_specifier(ctx, type_specifier, shape)))
         .collect();
 
+    let name_list = names_below_local_comment(ctx, assignment.local_token(), name_list, shape);
     let local_assignment = LocalAssignment::new(name_list);
     #[cfg(feature = "lua54")]
     let local_assignment = local_assignment.with_attributes(attributes);
@@ -545,6 +561,7 @@ pub fn format_local_assignment_no_trivia(
             equal_token = new_equal_token;
         }
 
+        let name_list = names_below_local_comment(ctx, assignment.local_token(), name_list, shape);
         let local_assignment = LocalAssignment::new(name_list);
         #[cfg(feature = "lua54")]
         let local_assignment = local_assignment.with_attributes(attributes);
